@@ -79,7 +79,7 @@ impl Check for C01Check {
         40
     }
     fn rule(&self) -> &'static str {
-        "case = ProgGen project (0-3 functions, 0-2 stateful FBs with RETURN, 1-3 programs in 1-2 tasks + background; typed expressions over all integer widths, REAL/LREAL, bit strings, TIME, STRING, enum, arrays with computed indices, struct fields, conversions, std functions and FBs; IF/CASE/FOR/WHILE/REPEAT/EXIT/CONTINUE; swarm knobs for boundary literals, widening, exotic CASE selectors, extreme FOR bounds) x history of cycles with boundary-biased %I images, clock stalls/jumps up to i64::MAX, budget faults at chosen or ALL statement points of a cycle, fault clearing and restarts; rejected programs are counted and skipped; later knobs: power operator with zero/small/run-time/negative exponents, VAR_TEMP initialisers that fault for some inputs, FB calls binding two outputs to one variable, busy-wait loops with an empty body that only the execution budget ends (a budget is armed for every cycle); distinct non-trivial = distinct (program hash, outcome class, fault kind) where a fault fired or a boundary input reached the program"
+        "case = ProgGen project (0-3 functions, 0-2 stateful FBs with RETURN, 1-3 programs in 1-2 tasks + background; typed expressions over all integer widths, REAL/LREAL, bit strings, TIME, STRING, enum, arrays with computed indices, struct fields, conversions, std functions and FBs; IF/CASE/FOR/WHILE/REPEAT/EXIT/CONTINUE; swarm knobs for boundary literals, widening, exotic CASE selectors, extreme FOR bounds) x history of cycles with boundary-biased %I images, clock stalls/jumps up to i64::MAX, budget faults at chosen or ALL statement points of a cycle, fault clearing and restarts; rejected programs are counted and skipped; later knobs: power operator with zero/small/run-time/negative exponents, VAR_TEMP initialisers that fault for some inputs, FB calls binding two outputs to one variable, busy-wait loops with an empty body that only the execution budget ends (a budget is armed for every cycle); round 3: namespaced function library (sibling calls, nested namespace, a function named like the standard LIMIT) with USING in programs and FBs, retentive variable blocks and globals, REPEAT exit conditions reading array elements indexed by the loop counter, three-level class / FB inheritance chains writing inherited variables; distinct non-trivial = distinct (program hash, outcome class, fault kind) where a fault fired or a boundary input reached the program"
     }
     fn assumptions(&self) -> Vec<&'static str> {
         vec![
